@@ -326,6 +326,154 @@ theorem untilFixedPoint_take [DecidableEq α] (ca : List (List α)) (i t : Nat) 
   · have h' : ¬ i + 1 > 1 := by omega
     simp only [h', h, if_false]
 
+/-! ## Row lengths in every mode -/
+
+theorem rowlen_plainLoop (rule : Rule1 σ α) (t : Nat) :
+    ∀ (ns : List (List α)) (c : Nat) (s : σ), (plainLoop rule t ns c s).1.length = ns.length
+  | [], _, _ => rfl
+  | n :: ns, c, s => by
+    simp only [plainLoop, List.length_cons]
+    rw [rowlen_plainLoop rule t ns]
+
+theorem rowlen_memoLoop [DecidableEq α] (rule : Rule1 σ α) (t : Nat) :
+    ∀ (ns : List (List α)) (c : Nat) (tbl : MemoTable α) (s : σ),
+      (memoLoop rule t ns c tbl s).1.length = ns.length
+  | [], _, _, _ => rfl
+  | n :: ns, c, tbl, s => by
+    simp only [memoLoop, List.length_cons]
+    rw [rowlen_memoLoop rule t ns]
+
+theorem rowlen_neighbourhoods [Inhabited α] (cells : List α) (r : Nat) (h1 : 1 ≤ r)
+    (h2 : r ≤ cells.length) : (neighbourhoods cells r).length = cells.length := by
+  rw [neighbourhoods_eq_map_window cells r h1 h2]; simp
+
+theorem rowlen_setMany [Inhabited α] (next : List α) (lo : Nat) (vals : List α) :
+    (setMany next lo vals).length = next.length := by
+  simp [setMany]
+
+theorem rowlen_updateRec [DecidableEq α] [Inhabited α] (rule : Rule1 σ α) (r : Nat)
+    (curr : List α) (t : Nat) :
+    ∀ (len lo : Nat) (st : RecSt σ α),
+      (updateRec rule r curr t len lo st).next.length = st.next.length := by
+  intro len
+  induction len using Nat.strongRecOn with
+  | _ len ih =>
+    intro lo st
+    rw [updateRec]
+    simp only
+    split
+    · simp [rowlen_setMany]
+    · split
+      · rename_i hlen
+        simp only
+        rw [ih (len - len / 2) (by omega), ih (len / 2) (by omega)]
+      · simp [rowlen_setMany]
+
+theorem rowlen_stepRec [DecidableEq α] [Inhabited α] (rule : Rule1 σ α) (r : Nat)
+    (curr : List α) (t : Nat) (cache : RecCache α) (s : σ) :
+    (stepRec rule r curr t cache s).next.length = curr.length := by
+  unfold stepRec
+  simp only
+  split <;> split <;> simp [rowlen_updateRec]
+
+theorem rowlen_step1 [DecidableEq α] [Inhabited α] (mode : Mode) (rule : Rule1 σ α) (r : Nat)
+    (cells : List α) (t : Nat) (cs : Caches α) (s : σ) (h1 : 1 ≤ r) (h2 : r ≤ cells.length) :
+    (step1 mode rule r cells t cs s).1.length = cells.length := by
+  cases mode <;>
+    simp [step1, rowlen_stepRec, rowlen_memoLoop, rowlen_plainLoop, rowlen_neighbourhoods, h1, h2]
+
+theorem rowlen_fixedLoop [DecidableEq α] [Inhabited α] (mode : Mode) (rule : Rule1 σ α) (r : Nat)
+    (h1 : 1 ≤ r) :
+    ∀ (k t : Nat) (cells : List α) (cs : Caches α) (s : σ), r ≤ cells.length →
+      ∀ row ∈ (fixedLoop mode rule r k t cells cs s).1, row.length = cells.length
+  | 0, _, _, _, _, _ => by simp [fixedLoop]
+  | k + 1, t, cells, cs, s, h2 => by
+    intro row hrow
+    rw [fixedLoop_succ] at hrow
+    simp only [List.mem_cons] at hrow
+    have hl := rowlen_step1 mode rule r cells t cs s h1 h2
+    rcases hrow with h | h
+    · rw [h, hl]
+    · rw [rowlen_fixedLoop mode rule r h1 k _ _ _ _ (by rw [hl]; exact h2) row h, hl]
+
+/-! ## Composition of runs -/
+
+theorem getLast?_append_some (hist rows : List (List α)) (init : List α)
+    (h : hist.getLast? = some init) :
+    (hist ++ rows).getLast? = some (rows.getLast?.getD init) := by
+  rw [List.getLast?_append, h]
+  cases rows.getLast? <;> rfl
+
+theorem run_add [Inhabited α] (rule : Rule1 σ α) (r : Nat) :
+    ∀ (k1 k2 t : Nat) (cells : List α) (s : σ),
+      Spec.run rule r (k1 + k2) t cells s
+        = ((Spec.run rule r k1 t cells s).1 ++
+            (Spec.run rule r k2 (t + k1) ((Spec.run rule r k1 t cells s).1.getLast?.getD cells)
+              (Spec.run rule r k1 t cells s).2).1,
+           (Spec.run rule r k2 (t + k1) ((Spec.run rule r k1 t cells s).1.getLast?.getD cells)
+              (Spec.run rule r k1 t cells s).2).2)
+  | 0, k2, t, cells, s => by simp [Spec.run]
+  | k1 + 1, k2, t, cells, s => by
+    have e : k1 + 1 + k2 = (k1 + k2) + 1 := by omega
+    rw [e]
+    simp only [Spec.run]
+    rw [run_add rule r k1 k2 (t + 1)]
+    simp [List.getLast?_cons, Nat.add_assoc, Nat.add_comm 1 k1]
+
+theorem stepCells_timeFree [Inhabited α] (rule : Rule1 σ α) (htf : TimeFree rule) (cells : List α)
+    (r t t' : Nat) :
+    ∀ (cs : List Nat) (s : σ),
+      Spec.stepCells rule cells r t cs s = Spec.stepCells rule cells r t' cs s
+  | [], _ => rfl
+  | c :: cs, s => by
+    simp only [Spec.stepCells]
+    rw [htf s _ c t t', stepCells_timeFree rule htf cells r t t' cs]
+
+theorem run_timeFree [Inhabited α] (rule : Rule1 σ α) (htf : TimeFree rule) (r : Nat) :
+    ∀ (k t t' : Nat) (cells : List α) (s : σ),
+      Spec.run rule r k t cells s = Spec.run rule r k t' cells s
+  | 0, _, _, _, _ => rfl
+  | k + 1, t, t', cells, s => by
+    simp only [Spec.run, Spec.step]
+    rw [stepCells_timeFree rule htf cells r t t', run_timeFree rule htf r k (t + 1) (t' + 1)]
+
+theorem run_getLast_length [Inhabited α] (rule : Rule1 σ α) (r k t : Nat) (cells : List α) (s : σ) :
+    ((Spec.run rule r k t cells s).1.getLast?.getD cells).length = cells.length := by
+  cases h : (Spec.run rule r k t cells s).1.getLast? with
+  | none => rfl
+  | some row =>
+    exact run_row_length rule r k t cells s row (List.mem_of_getLast? h)
+
+theorem rowlen_pureRun [Inhabited α] (f : List α → α) (r : Nat) :
+    ∀ (k : Nat) (cells : List α), ∀ row ∈ Spec.pureRun f r k cells, row.length = cells.length
+  | 0, _ => by simp [Spec.pureRun]
+  | k + 1, cells => by
+    intro row hrow
+    simp only [Spec.pureRun, List.mem_cons] at hrow
+    rcases hrow with h | h
+    · rw [h]; simp [Spec.pureStep]
+    · rw [rowlen_pureRun f r k _ row h]; simp [Spec.pureStep]
+
+theorem pureRun_getLast_length [Inhabited α] (f : List α → α) (r k : Nat) (cells : List α) :
+    ((Spec.pureRun f r k cells).getLast?.getD cells).length = cells.length := by
+  cases h : (Spec.pureRun f r k cells).getLast? with
+  | none => rfl
+  | some row =>
+    exact rowlen_pureRun f r k cells row (List.mem_of_getLast? h)
+
+theorem pureRun_add [Inhabited α] (f : List α → α) (r : Nat) :
+    ∀ (k1 k2 : Nat) (cells : List α),
+      Spec.pureRun f r (k1 + k2) cells
+        = Spec.pureRun f r k1 cells ++
+            Spec.pureRun f r k2 ((Spec.pureRun f r k1 cells).getLast?.getD cells)
+  | 0, k2, cells => by simp [Spec.pureRun]
+  | k1 + 1, k2, cells => by
+    have e : k1 + 1 + k2 = (k1 + k2) + 1 := by omega
+    rw [e]
+    simp only [Spec.pureRun]
+    rw [pureRun_add f r k1 k2]
+    simp [List.getLast?_cons]
+
 end
 
 end Cpl
